@@ -2,6 +2,7 @@
 From Coq Require Import ZArith Arith List Bool Permutation Sorting.Sorted.
 From B2Z Require Import Base.Prims Model.Spec Model.Icf Pipeline.Rows Pipeline.Buf Pipeline.Pipe Proofs.SpecProofs Proofs.SpecRoundtrip Bridge.BridgeBuffer.
 From B2Z Require Gen.GenBuffer.
+From B2Z Require Import Base.SanPrims Gen.GenSanitise Bridge.BridgeSanitise.
 Import ListNotations.
 Open Scope nat_scope.
 
@@ -115,6 +116,77 @@ Theorem flush_columns_cover : forall step width, (1 <= step)%Z -> (0 <= width)%Z
   col_chain 0 (GenBuffer.flush_cols (S (Z.to_nat width)) 0 step width) width step.
 Proof. exact flush_cols_cover. Qed.
 Print Assumptions flush_columns_cover.
+
+(* ---- TRANSLATOR TIE: the value sanitisers of icf.py (the functions that write one record's value into a
+   row of the encode buffer) and their dispatch, as regenerated from the source on this run
+   (translator/san2coq.py -> Gen/GenSanitise.v), ARE the row encoder enc_vec that vec_roundtrip,
+   pipeline_refines_spec and spec_roundtrip are about.  The premises spell out how a value reaches a
+   sanitiser (cyvcf2 / htslib conventions, kept by the intermediate store). ------------------------ *)
+
+(* INFO integers: for EVERY width, every vector of cells (absent cells arriving as INT32_MIN or -1), any
+   end-of-vector padding and whatever the row held before: absent -> all missing; else the cells in order,
+   then fill *)
+Theorem translated_int_1d_is_row_encoder : forall w old raw cells k, Forall2 int_raw raw cells -> (length cells + k <= w)%nat ->
+  gen_int_1d w old (Some (raw ++ repeat c_VCF_INT_FILL k)) = Ok (enc_vec c_INT_MISSING c_INT_FILL w (Some cells)) /\
+  gen_int_1d w old None = Ok (enc_vec c_INT_MISSING c_INT_FILL w None).
+Proof. exact translated_int_1d_lemma. Qed.
+Print Assumptions translated_int_1d_is_row_encoder.
+
+(* INFO floats (bit patterns): every NaN cell is stored as THE missing NaN, every other pattern -- +-inf,
+   denormals, -0.0 -- unchanged; then fill *)
+Theorem translated_float_1d_is_row_encoder : forall w old raw cells, Forall2 float_raw raw cells -> (length cells <= w)%nat ->
+  gen_float_1d w old (Some raw) = Ok (enc_vec c_FLOAT32_MISSING c_FLOAT32_FILL w (Some cells)) /\
+  gen_float_1d w old None = Ok (enc_vec c_FLOAT32_MISSING c_FLOAT32_FILL w None).
+Proof. exact translated_float_1d_lemma. Qed.
+Print Assumptions translated_float_1d_is_row_encoder.
+
+(* FORMAT integers / floats: one row per sample, each the row encoding of that sample's cells *)
+Theorem translated_int_2d_is_row_encoder : forall w old rows cellss m, Forall2 (int_row m) rows cellss -> (m <= w)%nat ->
+  gen_int_2d (length rows) w old (Some rows) = Ok (map (fun cells => enc_vec c_INT_MISSING c_INT_FILL w (Some cells)) cellss) /\
+  gen_int_2d (length rows) w old None = Ok (repeat (enc_vec c_INT_MISSING c_INT_FILL w None) (length rows)).
+Proof. exact translated_int_2d_lemma. Qed.
+Print Assumptions translated_int_2d_is_row_encoder.
+
+Theorem translated_float_2d_is_row_encoder : forall w old rows cellss m, Forall2 (float_row m) rows cellss -> (m <= w)%nat ->
+  gen_float_2d (length rows) w old (Some rows) = Ok (map (fun cells => enc_vec c_FLOAT32_MISSING c_FLOAT32_FILL w (Some cells)) cellss) /\
+  gen_float_2d (length rows) w old None = Ok (repeat (enc_vec c_FLOAT32_MISSING c_FLOAT32_FILL w None) (length rows)).
+Proof. exact translated_float_2d_lemma. Qed.
+Print Assumptions translated_float_2d_is_row_encoder.
+
+(* scalars (Number=1) and flags *)
+Theorem translated_scalars :
+  (forall r c rest, int_raw r c -> gen_int_scalar (Some (r :: rest)) = Ok (enc_cell c_INT_MISSING c)) /\
+  gen_int_scalar None = Ok c_INT_MISSING /\
+  (forall b rest, gen_float_scalar (Some (b :: rest)) = Ok b) /\
+  gen_float_scalar None = Ok c_FLOAT32_MISSING /\
+  (forall v, gen_bool (Some v) = true) /\ gen_bool None = false.
+Proof. exact translated_scalars_lemma. Qed.
+Print Assumptions translated_scalars.
+
+(* the sanitiser is chosen by the field's VCF TYPE and the rank of the destination, never by the
+   destination's dtype (a user schema may widen an integer array into a float dtype) *)
+Theorem translated_sanitiser_dispatch : forall ty rank, gen_dispatch ty rank = expected_sanitiser ty rank.
+Proof. exact translated_dispatch_lemma. Qed.
+Print Assumptions translated_sanitiser_dispatch.
+
+(* what a buffer row held before (the previous variant chunk) never shows *)
+Theorem translated_rows_ignore_stale_data : forall w n old old' old2 old2' v v2,
+  gen_int_1d w old v = gen_int_1d w old' v /\ gen_float_1d w old v = gen_float_1d w old' v /\
+  gen_int_2d n w old2 v2 = gen_int_2d n w old2' v2 /\ gen_float_2d n w old2 v2 = gen_float_2d n w old2' v2.
+Proof. exact translated_rows_ignore_stale_data_lemma. Qed.
+Print Assumptions translated_rows_ignore_stale_data.
+
+(* the sentinels read from constants.py are the VCF Zarr ones *)
+Example translated_constants :
+  (c_INT_MISSING, c_INT_FILL, c_FLOAT32_MISSING, c_FLOAT32_FILL, c_VCF_INT_MISSING, c_VCF_INT_FILL)
+  = ((-1)%Z, (-2)%Z, 2139095041%Z, 2139095042%Z, (- 2 ^ 31)%Z, (- 2 ^ 31 + 1)%Z).
+Proof. vm_compute. reflexivity. Qed.
+
+Example translated_sanitiser_instance :
+  gen_int_1d 4 [9; 9; 9; 9]%Z (Some [5; -2147483648; -2147483647]%Z) = Ok [5; -1; -2; -2]%Z /\
+  gen_float_1d 3 [7; 7; 7]%Z (Some [2139095040; 2143289344]%Z) = Ok [2139095040; 2139095041; 2139095042]%Z /\
+  gen_int_1d 2 [] (Some [1; 2; 3]%Z) = Err E_ValueError.
+Proof. vm_compute. repeat split; reflexivity. Qed.
 
 Example c01_instance :
   enc_vec (-1)%Z (-2)%Z 3 (Some [Some 7%Z; None]) = [7; -1; -2]%Z /\ dec_vec (-1)%Z (-2)%Z [7; -1; -2]%Z = Some [Some 7%Z; None] /\
